@@ -45,5 +45,9 @@ var checks = map[string]func() int{
 	"C05": checkC05,
 	"C06": checkC06,
 	"C07": checkC07,
+	"C08": checkC08,
 	"C09": checkC09,
+	"C10": checkC10,
+	"C15": checkC15,
+	"C16": checkC16,
 }
